@@ -1,3 +1,3 @@
 #!/bin/sh
 # run the repository's own suite and print the summary (baseline: 3874 passed, 2 failed + 1 error in test_decompiler)
-cd "${1:-/repo}" && timeout 1800 /venv/bin/python -m pytest -q -p no:cacheprovider --timeout=900 --continue-on-collection-errors -q 2>&1 | tail -6 | grep -v "^$"
+cd "${1:-/repo}" && timeout 1800 /venv/bin/python -m pytest -q -p no:cacheprovider --timeout=900 --continue-on-collection-errors 2>&1 | tail -4 | grep -v "^$"
